@@ -239,6 +239,22 @@ reg("C18", "exploration",
     "Unreadable renderings are undecided and listed; catalogue equations with derivatives, "
     "integrals, sums, matrices, wrappers are well-formedness-checked only.", "DESIGN.md 3/C18")
 
+reg("C19", "model_checking",
+    "explicit-state exploration of the AST patcher over all small module bodies, plus stepwise "
+    "monitoring of whole-package generation in several orders, processes and hash seeds",
+    "(a) every module body of at most n statements (n=4 quick, 5 thorough) over 11 statement "
+    "kinds is patched by the real patch_sympy_evaluate, compiled and executed with the real "
+    "disable/reset functions; probes record sympy's global evaluation flag at every statement and "
+    "the flag / exposure / order invariants are checked in every state. (b) generate_laws_docs is "
+    "run on the real package with the flag and canary computations checked after each of the "
+    "~735 pages, repeated in the same process, with reversed directory order and in fresh "
+    "processes under other hash seeds (byte-identical output); pages are checked against the "
+    "modules: one page per titled source, no placeholder left, every formula and symbol table equal "
+    "to the module's own rendering, every symbol / constant role resolves to an existing attribute.",
+    "Shapes the catalogue never has (statements between a member and its directive docstring, "
+    "documented defs designated by a directive) are left open; Sphinx HTML is out of scope.",
+    "DESIGN.md 3/C19")
+
 
 def build() -> dict:
     props = [json.loads(l)["id"] for l in open(os.path.join(ROOT, "properties.jsonl"))]
